@@ -153,6 +153,26 @@ theorem AllocB.le {d : Dec α} {B : Nat} (h : AllocB B d) (b : Bytes) :
   unfold guardD; split <;> rfl
 @[simp] theorem allocD_r (n : Nat) (b : Bytes) : (allocD n b).r = .ok () b := rfl
 @[simp] theorem allocD_alloc (n : Nat) (b : Bytes) : (allocD n b).alloc = n := rfl
+theorem hasLen_iff (n : Nat) (b : Bytes) : hasLen n b = true ↔ n ≤ b.length := by
+  induction n generalizing b with
+  | zero => simp [hasLen]
+  | succ n ih =>
+    cases b with
+    | nil => simp [hasLen]
+    | cons x t => simp [hasLen, ih]
+
+@[simp] theorem needD_r (n : Nat) (e : Err) (b : Bytes) :
+    (needD n e b).r = if n ≤ b.length then .ok () b else .err e := by
+  unfold needD
+  by_cases h : n ≤ b.length
+  · simp [h, (hasLen_iff n b).mpr h]
+  · have : hasLen n b = false := by
+      cases hh : hasLen n b with
+      | false => rfl
+      | true => exact absurd ((hasLen_iff n b).mp hh) h
+    simp [h, this]
+@[simp] theorem needD_alloc (n : Nat) (e : Err) (b : Bytes) : (needD n e b).alloc = 0 := by
+  unfold needD; split <;> rfl
 @[simp] theorem lenD_r (b : Bytes) : (lenD b).r = .ok b.length b := rfl
 @[simp] theorem lenD_alloc (b : Bytes) : (lenD b).alloc = 0 := rfl
 @[simp] theorem slice_r (n : Nat) (b : Bytes) :
@@ -270,7 +290,7 @@ theorem varint_r (s : Bool) (b : Bytes) : (varint s b).r =
   cases b with
   | nil => simp [varint, bind_r]
   | cons b0 rest =>
-    simp only [varint, bind_eq, pure_eq, bind_r, lenD_r, guardD_r, byte0, List.length_cons]
+    simp only [varint, bind_eq, pure_eq, bind_r, needD_r, byte0, List.length_cons]
     by_cases h1 : sizeOfFirst b0.toNat = 1
     · simp [h1]
     · by_cases h2 : sizeOfFirst b0.toNat ≤ rest.length + 1
@@ -282,7 +302,7 @@ theorem varint_alloc (s : Bool) (b : Bytes) : (varint s b).alloc ≤ if s then 8
   cases b with
   | nil => simp [varint, bind_alloc, bind_r, byte0]
   | cons b0 rest =>
-    simp only [varint, bind_eq, pure_eq, bind_alloc, bind_r, lenD_r, lenD_alloc, guardD_r, guardD_alloc,
+    simp only [varint, bind_eq, pure_eq, bind_alloc, bind_r, needD_r, needD_alloc,
       byte0, List.length_cons]
     have := hs b0.toNat
     by_cases h1 : sizeOfFirst b0.toNat = 1
@@ -621,9 +641,7 @@ theorem AllocB.listLP (max sz : Nat) {d : Dec α} (h : AllocB 0 d) :
       generalize (C32.varint false b).alloc = av at ha ⊢
       generalize rest.length = rl at ha hr ⊢
       generalize b.length = bl at ha ⊢
-      clear hv h1 h
-      revert ha hr this
-      set_option pp.all true in trace_state
+      show av + (0 + (x + ar)) + 128 * rr ≤ 128 * bl + y
       omega
     · simp only [h1, if_false, Res.restLen]; omega
   | err e => rw [hv] at ha; simp only [Res.restLen] at ha ⊢; omega
@@ -702,5 +720,71 @@ theorem tagged_rt {tag : Dec τ} {sel : τ → Option (Dec α)} {etag : τ → B
   simp only [C32.tagged, bind_eq, List.append_assoc]
   rw [bind_ok (ht t _ hw), hs]
   exact hd
+
+/-! ### pointwise / refined bind rules -/
+
+theorem bind_ne_panic {d : Dec α} {f : α → Dec β} {b : Bytes} (hd : (d b).r ≠ .panic)
+    (hf : ∀ v r, (d b).r = .ok v r → (f v r).r ≠ .panic) : (Dec.bind d f b).r ≠ .panic := by
+  rw [bind_r]
+  cases h : (d b).r with
+  | ok v rest => exact hf v rest h
+  | err e => simp
+  | panic => exact absurd h hd
+
+/-- a leading decoder that allocates nothing and consumes at least one byte pays for up to `A` bytes
+allocated by what follows -/
+theorem AllocB.bindStrict {d : Dec α} {f : α → Dec β} (h0 : ∀ b, (d b).alloc = 0) (hs : Strict d)
+    (h2 : ∀ v, AllocB A (f v)) : AllocB 0 (Dec.bind d f) := by
+  intro b
+  rw [bind_r, bind_alloc, h0 b]
+  cases hd : (d b).r with
+  | ok w rest =>
+    have a2 := h2 w rest
+    have := hs b w rest hd
+    show 0 + (f w rest).alloc + 128 * (f w rest).r.restLen ≤ 128 * b.length + 0
+    omega
+  | err e => simp only [Res.restLen]; omega
+  | panic => simp only [Res.restLen]; omega
+
+/-- `AllocC.bind` where the continuation may use that the first decoder succeeded -/
+theorem AllocC.bindOk {d : Dec α} {f : α → Dec β} {K1 K2 : Nat} (h1 : AllocC K1 d)
+    (h2 : ∀ b v r, (d b).r = .ok v r → AllocC K2 (f v)) : AllocC (K1 + K2) (Dec.bind d f) := by
+  intro b
+  rw [bind_alloc]
+  have a1 := h1 b
+  cases hd : (d b).r with
+  | ok w rest => have a2 := h2 b w rest hd rest; simp only []; omega
+  | err e => simp only []; omega
+  | panic => simp only []; omega
+
+theorem AllocB.onBytes {inner : Dec α} {K : Nat} (h : AllocC K inner) (sub : Bytes) :
+    AllocB K (onBytes inner sub) := by
+  intro b
+  rw [onBytes_alloc, onBytes_r]
+  have := h sub
+  cases hi : (inner sub).r with
+  | ok v r => simp only [Res.restLen]; omega
+  | err e => simp only [Res.restLen]; omega
+  | panic => simp only [Res.restLen]; omega
+
+theorem Total.map {d : Dec α} (f : α → β) (h : Total d) : Total (Dec.map f d) :=
+  Total.bind h fun _ => Total.pure _
+theorem NonIncr.map {d : Dec α} (f : α → β) (h : NonIncr d) : NonIncr (Dec.map f d) :=
+  NonIncr.bind h fun _ => NonIncr.pure _
+theorem AllocB.map {d : Dec α} {B : Nat} (f : α → β) (h : AllocB B d) : AllocB B (Dec.map f d) := by
+  have := AllocB.bind h fun v => AllocB.pure (f v)
+  exact this
+theorem map_ok {d : Dec α} {f : α → β} {b : Bytes} {v : α} {rest : Bytes}
+    (h : (d b).r = .ok v rest) : (Dec.map f d b).r = .ok (f v) rest := by
+  unfold Dec.map; rw [bind_ok h]; rfl
+
+theorem AllocC.zero_of_alloc {d : Dec α} (h : ∀ b, (d b).alloc = 0) : AllocC 0 d := by
+  intro b; rw [h b]; exact Nat.le_refl _
+
+theorem varint_alloc0 (b : Bytes) : (varint false b).alloc = 0 := by
+  have := varint_alloc false b; simp at this; exact this
+
+theorem crash_r (b : Bytes) : (Dec.crash b : Out α).r = .panic := rfl
+theorem crash_alloc (b : Bytes) : (Dec.crash b : Out α).alloc = 0 := rfl
 
 end MtxVerif.C32
